@@ -9,7 +9,78 @@ def pred(v, code, m):
     return preds.c20_pep8(v, code, m)
 
 
+def _issues(g, m):
+    from harness import preds as P
+    try:
+        return [(i.code, i.message, i.start_pos, i.end_pos) for i in g._get_normalizer_issues(m)]
+    except RecursionError:
+        return 'recursion'
+    except Exception as e:
+        return P.crash_sig(e)
+
+
+def same_from_every_source(ctx, n):
+    """the issue list is the same whether the tree came from a fresh parse, an incremental re-parse (diff_cache) or the cache
+    (memory entry and pickle)"""
+    import os, shutil, parso
+    from parso import cache as pcache
+    from harness.props import C04
+    from harness import gens
+    vs = streams.versions()
+    root = '/verif/.work/c20-cache'
+    for i in range(n):
+        r = gens.rng(ctx.seed, 'c20-hist', i)
+        hist = C04.gen_history(r)
+        v = r.choice(vs)
+        g = parso.load_grammar(version=v)
+        path = '/verif/.work/c20-virtual-%d.py' % i
+        pcache.parser_cache.pop(g._hashed, None)
+        for step, text in enumerate(hist):
+            ctx.count('c20-history-steps')
+            try:
+                fresh = _issues(g, g.parse(text))
+                inc = _issues(g, g.parse(text, diff_cache=True, path=path))
+            except RecursionError:
+                break
+            except Exception:
+                break          # a failing incremental parse is C04's business
+            if inc != fresh:
+                ctx.violation('C20:issues-differ-after-incremental-parse', dict(kind='history', version=v, steps=hist[:step + 1], failing_step=step,
+                                                                              fresh=str(fresh)[:300], incremental=str(inc)[:300]))
+                break
+        pcache.parser_cache.pop(g._hashed, None)
+        # the cache: memory entry, then the pickle
+        text = hist[-1]
+        shutil.rmtree(root, ignore_errors=True)
+        os.makedirs(root, exist_ok=True)
+        f = os.path.join(root, 'm.py')
+        with open(f, 'w', encoding='utf-8', newline='') as fh:
+            fh.write(text)
+        try:
+            with open(f, encoding='utf-8', newline='') as fh:
+                if fh.read() != text:
+                    continue
+            fresh = _issues(g, g.parse(text))
+            a = _issues(g, g.parse(path=f, cache=True, cache_path=os.path.join(root, 'c')))
+            bb = _issues(g, g.parse(path=f, cache=True, cache_path=os.path.join(root, 'c')))
+            pcache.parser_cache.clear()
+            c = _issues(g, g.parse(path=f, cache=True, cache_path=os.path.join(root, 'c')))
+        except (RecursionError, UnicodeError):
+            continue
+        except Exception as e:
+            from harness import preds as P
+            ctx.violation('C20:cached-parse-raises:' + P.crash_sig(e), dict(kind='input', version=v, input_text=text))
+            continue
+        ctx.count('c20-cache-sources', 3)
+        for name, got in (('first-cached-parse', a), ('memory-cache', bb), ('pickle', c)):
+            if got != fresh:
+                ctx.violation('C20:issues-differ-from-fresh-parse:' + name, dict(kind='input', version=v, input_text=text, fresh=str(fresh)[:300], got=str(got)[:300]))
+                break
+    shutil.rmtree(root, ignore_errors=True)
+
+
 def run(ctx, b, drv):
+    same_from_every_source(ctx, base.scale(ctx, 40))
     pend0 = base.Pending(ctx)
     base.mismatches(ctx, pend0, streams.run_issues(ctx, base.scale(ctx, 1500), drv), None)
     pend0.flush()
